@@ -372,7 +372,7 @@ def exhaustive_cases(quick):
                     if sub >> i & 1:
                         tabs[i].append(wdw)
             dut = mk_derived(nd, proto["name"], deps, wtype, width, 1, start, tabs, use_else)
-            out.append((factors, dut, {"family": "%dx%d-%s-w%d-s%s-l%d%s" % (nd, nl, wtype, width, start, nlev, "e" if use_else else "")}))
+            out.append((factors + [dut], dut, {"family": "%dx%d-%s-w%d-s%s-l%d%s" % (nd, nl, wtype, width, start, nlev, "e" if use_else else "")}))
             count += 1
             code += step if step > 1 else 1
     return out
@@ -494,12 +494,12 @@ def observe_windows(ctx, program, built, block, fid, n):
                 real = "none"
             except Exception as e:  # noqa
                 real = "error " + type(e).__name__
-            # the columns F saw: an implied dependency listed earlier in the design was recomputed first
+            # the columns F saw
             cols = []
             okc = True
             for dep in w.factors:
-                earlier = (dep not in block.act_design and dep in block.design and F in block.design
-                           and block.design.index(dep) < block.design.index(F))
+                # implied factors are filled in by derivation depth, so an implied dependency is recomputed first
+                earlier = dep not in block.act_design and dep in block.design
                 col = results[dep.name] if earlier else given[dep.name]
                 names = [str(l.name) for l in dep.levels]
                 try:
@@ -578,6 +578,29 @@ def judge_sample(program, sample):
     return None
 
 
+class SynthTimeout(Exception):
+    pass
+
+
+def synth_limited(block, n, strategy, seconds):
+    """ir.synthesize under a wall-clock limit (RandomGen's rejection loop need not terminate on
+    unsatisfiable designs); the limit shows up as ("error", "SynthTimeout", ...)."""
+    import signal
+
+    def handler(signum, frame):
+        raise SynthTimeout("time limit %ds" % seconds)
+    try:
+        old = signal.signal(signal.SIGALRM, handler)
+    except ValueError:      # not in the main thread
+        return ir.synthesize(block, n, strategy)
+    signal.alarm(seconds)
+    try:
+        return ir.synthesize(block, n, strategy)
+    finally:
+        signal.alarm(0)
+        signal.signal(signal.SIGALRM, old)
+
+
 def run_case(ctx, program, fid, nseq, nobs, strategies=("IterateSATGen", "RandomGen")):
     """Everything for one program.  Returns a dict (no model calls here; model lines are collected)."""
     fm = fmap(program)
@@ -641,7 +664,7 @@ def run_case(ctx, program, fid, nseq, nobs, strategies=("IterateSATGen", "Random
     for s in strategies:
         b2 = ir.build(program)
         blk2 = ir.main_block(b2, program)
-        out = ir.synthesize(blk2, nseq, s)
+        out = synth_limited(blk2, nseq, s, 4)
         if out[0] == "ok":
             r["synth"][s] = ("ok", out[1])
         else:
@@ -899,7 +922,7 @@ def run(ctx, res):
             {"layer": layer, "program": p, "detail": d, "theorems": ["C15_*"]}, failing_input=False))
     elif corr_bad:
         res.notes.append("model/code disagreements: %d (first layer %s: %s)" % (len(corr_bad), corr_bad[0][0], json.dumps(corr_bad[0][2], default=str)[:300]))
-    res.extra["disagreements"] = [(l, json.dumps(d, default=str)[:300]) for l, _, d in corr_bad[:10]]
+    res.extra["disagreements"] = [(l, json.dumps(d, default=str)[:300], json.dumps(p, sort_keys=True)) for l, p, d in corr_bad[:10]]
     res.notes.append("layers: window, domain, accepts (ElseLevel complement), outcome-overlap (which levels/assignment), "
                      "outcome-errors (exact strings), outcome-fails, synth-empty, derivs + flat-errors (flat record), "
                      "select / testtrial / implied (random columns); search: program tables as oracle on every returned sequence")
